@@ -1,6 +1,9 @@
 package valid
 
-import "strings"
+import (
+	"sort"
+	"strings"
+)
 
 // RM 字段的自定义验证规则, key 为字段名, value 为验证规则
 type RM map[string]string
@@ -22,6 +25,28 @@ func (r RM) Set(filedNames string, rules ...string) RM {
 		r[fieldName] = strings.Join(rules, ",")
 	}
 	return r
+}
+
+// sortedRuleKeys 获取有序的字段名(空字段名除外)
+func sortedRuleKeys(r RM) []string {
+	keys := make([]string, 0, len(r))
+	for key := range r {
+		if key != "" {
+			keys = append(keys, key)
+		}
+	}
+	sort.Strings(keys)
+	return keys
+}
+
+// requiredMsgs 获取验证规则里每个 required 的自定义说明(没有则为 "")
+func requiredMsgs(validNames string) (msgs []string) {
+	for _, validName := range ValidNamesSplit(validNames) {
+		if validKey, _, cusMsg := ParseValidNameKV(validName); validKey == Required {
+			msgs = append(msgs, cusMsg)
+		}
+	}
+	return
 }
 
 // Get 获取验证规则
